@@ -173,6 +173,16 @@ def run(tier, seed):
           ser.MAX_CHUNK_SIZE = default_chunk
         if _same_tree(snap, sd2):
           fails.append(dict(inputs=dict(inp, threshold=3), observed='msgpack_serialize(in_place=False) modified the state dict: ' + str(_same_tree(snap, sd2))[:200], violated='input-unmodified'))
+    # sequences of 12 entries restored from a state dict whose keys come back in another order ('0','1','10','11','2',...)
+    for seq in ([np.full((2,), i, np.float32) for i in range(12)], tuple(np.asarray(i * 1.5) for i in range(13))):
+      cases += 1
+      sd_seq = ser.to_state_dict(seq)
+      shuffled = {k: sd_seq[k] for k in sorted(sd_seq)}                       # lexicographic key order
+      via_bytes = ser.msgpack_restore(ser.msgpack_serialize(sd_seq))        # what a checkpoint round trip hands back
+      for label, state in (('key-sorted dict', shuffled), ('msgpack round trip', via_bytes)):
+        d = _same_tree(seq, ser.from_state_dict(seq, state))
+        if d:
+          fails.append(dict(inputs=dict(container=type(seq).__name__, length=len(seq), state=label), observed='entries are matched by position instead of by index key: ' + d[:200], violated='match-by-key'))
     # rejection: never by position
     tmpl = {'a': np.zeros(2), 'b': [np.zeros(1), np.ones(1)], 'p': Pair(1, 2), 'd': Box(w=1, step=2)}
     good = ser.to_state_dict(tmpl)
